@@ -13,11 +13,15 @@ import (
 // Durations travel in milliseconds; -1 = NoExpiration, 0 = DefaultExpiration.  Keys are k0,k1,…
 // For the string-valued cache value 0 stands for "" (which the cache rejects), v > 0 for "s<v>".
 
+// durUnit is the unit durations travel in: milliseconds under the synctest harness (virtual clock); the C02
+// interleaving engine, which runs on the real clock, sets it to microseconds so that letting an entry expire is cheap.
+var durUnit = time.Millisecond
+
 func dur(ms int) time.Duration {
 	if ms < 0 {
 		return cache.NoExpiration
 	}
-	return time.Duration(ms) * time.Millisecond
+	return time.Duration(ms) * durUnit
 }
 
 type cacheAPI interface {
@@ -83,6 +87,11 @@ func (r *cacheRunner[V]) Do(op []string) string {
 		return errs(c.MapToCache(m, dur(atoi(op[2]))))
 	case "isexpired":
 		return b2s(c.IsExpired(key(op[1])))
+	case "sleep":
+		// only reached outside the synctest harness (the C02 interleaving engine runs on the real clock): lets
+		// an entry expire without being purged
+		time.Sleep(time.Duration(atoi(op[1])) * durUnit)
+		return "ok"
 	}
 	panic("harness: bad op " + op[0])
 }
